@@ -383,5 +383,7 @@ META = dict(
     assumptions=["atm_g[g] in [0, natm) (caller contract of contract_grad_terms_parallel)", "results additionally depend on reassociation inside reductions/BLAS, which the property allows",
                  "part B: the __kmpc_* runtime is a model (fork_call, static/dynamic work-sharing, barrier, single, master, critical, reduce); addresses never depend on floating-point data; "
                  "stores of the value already present are not races (listed in the evidence tags)",
+                 "part B, team model (schedules/*): one legal execution per team size T in {2, 3}: static -> contiguous blocks or round-robin chunks, dynamic/guided -> chunk c to thread c mod T in increasing order; "
+                 "uninitialised heap doubles are unconstrained reals; a failing identity is replayed on the compiled library with real teams (2, 3, 4 threads, <= 40 runs each)",
                  "NOT covered: the remaining work-shared loops of conv_interpolation.c (nuclear-gradient terms, unused variants), fast_sdmx.c, frac_lapl.c, numint_cider/nr_numint.c, pbc_tools.c, MKL/MPI branches, reproducibility of BLAS itself"],
 )
